@@ -35,6 +35,7 @@ from props import PROPS  # noqa: E402
 def sh(cmd, cwd=None, env=None, timeout=None, inp=None):
     e = dict(os.environ)
     e["CARGO_NET_OFFLINE"] = "true"
+    e["CARGO_TARGET_DIR"] = os.path.join(CACHE, "target")
     if env:
         e.update(env)
     p = subprocess.run(cmd, cwd=cwd, env=e, stdout=subprocess.PIPE, stderr=subprocess.STDOUT,
